@@ -609,3 +609,9 @@ pub fn stub_memchr(x: u8, text: &[u8]) -> Option<usize> {
     }
     None
 }
+
+/// dropping an anyhow::Error goes through its vtable (object_drop) and, under Kani, costs minutes; library code
+/// that discards such an error internally (`Err(_) => ...`) would make a harness run out of time. Errors are
+/// leaked instead (the harnesses already `mem::forget` every error value they receive).
+#[cfg(kani)]
+pub fn stub_anyhow_drop(_e: &mut anyhow::Error) {}
